@@ -40,7 +40,7 @@ LEVEL_TEXT = (
 LEVEL_NOTE = "Trusts the dict/list membership model and the snapshot reader (public accessors only). Search, not proof."
 TECHNIQUE = "model-based stateful PBT: exhaustive small-scope histories + Hypothesis op-lists vs. an insertion-ordered membership model"
 
-OPS_W = ["ua"] * 3 + ["va"] * 3 + ["ur"] * 2 + ["vr"] * 2 + ["newv_u", "newu", "newu2", "newv_u2", "lawsnone"] + ["bulk_u"]
+OPS_W = ["ua"] * 3 + ["va"] * 3 + ["ur"] * 2 + ["vr"] * 2 + ["newv_u", "newu", "newu2", "newv_u2", "lawsnone"] + ["bulk_u"] + ["newu_big", "churn"]
 
 
 def budget(tier):
@@ -53,10 +53,12 @@ def strategy(tier):
     maxlen = 40 if tier == "quick" else 100
     op = st.tuples(st.sampled_from(OPS_W), st.integers(0, 11), st.integers(0, 11), st.integers(0, 11))
     return st.builds(
-        lambda nplain, nuni, ops: {"nv": nplain + nuni, "nuni": nuni, "dupuid": bool(ops and ops[0][3] % 4 == 0), "ops": [list(o) for o in ops]},
+        lambda nplain, nuni, ops, vcls: {"nv": nplain + nuni, "nuni": nuni, "dupuid": bool(ops and ops[0][3] % 4 == 0), "ops": [list(o) for o in ops], **({"vcls": vcls} if vcls else {})},
         st.integers(1, 3),
         st.integers(1, 3),
         st.lists(op, max_size=maxlen),
+        # vertex classes of the plain vertices (falsy through __bool__ / __len__, multiply inheriting, hashing by uid, slotted)
+        st.one_of(st.none(), st.lists(st.integers(0, 5), min_size=1, max_size=3)),
     )
 
 
@@ -95,9 +97,11 @@ def _invariant(w, where):
 
 
 def check_case(case):
-    w = World(case["nv"], case["nuni"], None, bool(case.get("dupuid")))
+    w = World(case["nv"], case["nuni"], case.get("vcls"), bool(case.get("dupuid")))
     m = Model(len(w.vs), w.uidx)
     classes = set()
+    if any(not bool(v) for v in w.vs):
+        classes.add("falsy-vertex-in-pool")
     removed_pairs = set()
     sides = {}
     has_remove = readd = nested = False
